@@ -20,7 +20,16 @@ CONSTANTS Keys, Vals, MaxVal, IsSet, None, Rej, EK, TName
 VARIABLE act
 mcvars == <<vars, act>>
 
-Cfg == [t |-> TName, set |-> IsSet, none |-> None, rej |-> Rej, ek |-> EK]
+\* what the type of this configuration offers: add / add-if-exist and the wire
+\* form exist on the int-to-int map only; only the int-to-object map stores nil
+HasAdd  == TName = "IntIntMap"
+HasWire == TName = "IntIntMap"
+HasNil  == TName = "IntKeyMap"
+
+Cfg == [t |-> TName, set |-> IsSet, none |-> None, rej |-> Rej, nil |-> HasNil, ek |-> EK]
+\* every value the scope can store / ask for (the nil object's code is in Vals
+\* in the int-to-object configuration)
+ValU == (0..MaxVal) \cup Vals
 
 MCInit == InitWith(Cfg) /\ act = <<"Init", 0, 0, <<>>, <<>>>>
 
@@ -29,6 +38,7 @@ LblAll(ks, vs) == act' = <<"PutAll", 0, 0, ks, vs>>
 
 AddFits(k, v) == IF Present(k) THEN m[k] + v <= MaxVal ELSE TRUE
 
+\* (with nil among the values VLo is the nil object: put-all carries it)
 VLo == CHOOSE v \in Vals : \A w \in Vals : v <= w
 VHi == CHOOSE v \in Vals : \A w \in Vals : v >= w
 \* argument lists of put-all: none, two different keys, the same key twice
@@ -46,8 +56,8 @@ DirCount == 3
 MCNext ==
   \/ \E k \in Keys, v \in Vals, n \in InsertNames : Put(k, v) /\ Lbl(n, k, v)
   \/ \E k \in Keys, v \in Vals :
-       \/ ~IsSet /\ AddFits(k, v) /\ Add(k, v) /\ Lbl("Add", k, v)
-       \/ ~IsSet /\ AddFits(k, v) /\ AddIfExist(k, v) /\ Lbl("AddIfExist", k, v)
+       \/ HasAdd /\ AddFits(k, v) /\ Add(k, v) /\ Lbl("Add", k, v)
+       \/ HasAdd /\ AddFits(k, v) /\ AddIfExist(k, v) /\ Lbl("AddIfExist", k, v)
   \/ \E k \in Keys : Remove(k) /\ Lbl("Remove", k, 0)
   \/ Clear /\ Lbl("Clear", 0, 0)
   \/ \E a \in PutAllArgs : PutAll(a[1], a[2]) /\ LblAll(a[1], a[2])
@@ -55,7 +65,7 @@ MCNext ==
   \* (below) makes the replayer issue them from every reachable state
   \/ \E n \in ReadNames : ReadOnly /\ Lbl(n, 0, 0)
   \/ \E k \in Keys, n \in MemberNames : ReadOnly /\ Lbl(n, k, 0)
-  \/ \E v \in 0..(MaxVal + 1) : ~IsSet /\ ReadOnly /\ Lbl("ContainsValue", 0, v)
+  \/ \E v \in ValU \cup {MaxVal + 1} : ~IsSet /\ ReadOnly /\ Lbl("ContainsValue", 0, v)
   \/ \E i \in 1..DirCount : ReadOnly /\ Lbl("Sort", i, 0)
 
 MCSpec == MCInit /\ [][MCNext]_mcvars
@@ -102,6 +112,14 @@ SizeLawA == A \in PointOps =>
                  (IF K \in DOMAIN m' THEN 1 ELSE 0) - (IF K \in DOMAIN m THEN 1 ELSE 0)
 SizeLaw == [][SizeLawA]_mcvars
 
+\* a key stored with the nil object is stored: what a lookup answers for it is
+\* what it answers for an absent key, membership and size still count it; a type
+\* without nil answers every stored value as itself
+NilIsAValue == \A k \in Keys :
+                 /\ (Present(k) /\ HasNil /\ m[k] = NilV) => (Lookup(k) = None /\ HasValue(NilV))
+                 /\ (Present(k) /\ ~(HasNil /\ m[k] = NilV)) => Lookup(k) = <<m[k]>>
+                 /\ ~Present(k) => Lookup(k) = None
+
 \* ---- the bag operators accept exactly the arrangements ----------------------
 SeqsUpTo(S, n) == UNION {[1..i -> S] : i \in 0..n}
 Injective(s) == \A i, j \in 1..Len(s) : s[i] = s[j] => i = j
@@ -109,12 +127,12 @@ NK == Cardinality(Keys)
 KeysBagExact == \A s \in SeqsUpTo(Keys, NK) :
                    KeysBagOK(s) = (Injective(s) /\ Range(s) = Stored)
 \* a value sequence is accepted iff it is the value projection of some arrangement of the keys
-ValuesBagExact == \A s \in SeqsUpTo(0..MaxVal, NK) :
+ValuesBagExact == \A s \in SeqsUpTo(ValU, NK) :
                      (~IsSet) => (ValuesBagOK(s) =
                                   (\E o \in SeqsUpTo(Keys, NK) :
                                       /\ Injective(o) /\ Range(o) = Stored /\ Len(o) = Len(s)
                                       /\ \A i \in 1..Len(s) : s[i] = m[o[i]]))
-EntriesBagExact == \A s \in SeqsUpTo(Keys \X (0..MaxVal), NK) :
+EntriesBagExact == \A s \in SeqsUpTo(Keys \X ValU, NK) :
                       /\ EntriesBagOK(s) = (Injective(s) /\ Range(s) = PairsOf(m))
                       /\ ProjOK([i \in 1..Len(s) |-> s[i][1]], [i \in 1..Len(s) |-> s[i][2]]) = EntriesBagOK(s)
 
@@ -123,7 +141,7 @@ EntriesBagExact == \A s \in SeqsUpTo(Keys \X (0..MaxVal), NK) :
 KW(k) == IntToW8(k - 2)
 Arrangements == {o \in SeqsUpTo(Keys, NK) : Injective(o) /\ Range(o) = Stored}
 WireRoundTrip ==
-  (~IsSet) => \A o \in Arrangements :
+  HasWire => \A o \in Arrangements :
      LET b == WireOf(m, o, KW) IN
        /\ WireOK(b, m, KW)
        /\ WireDec(b).ok
@@ -145,6 +163,8 @@ ValSeq(f) == [i \in 1..Cardinality(DOMAIN f) |-> f[NthKey(f, i)]]
 DumpT == PrintT(ToJson(<<"T", KeySeq(m), ValSeq(m), act', KeySeq(m'), ValSeq(m')>>))
 
 NoneNil  == <<>>
+\* the values of the int-to-object scope: the nil object, two other objects
+ObjVals  == {NilV, 0, 1}
 NoneZero == <<0>>
 View == vars
 =============================================================================
